@@ -74,7 +74,11 @@ impl Out {
     }
     /// a property failure seen on the implementation by the independent oracle
     pub fn fail(&mut self, class: &str, input: &str, detail: &str) {
-        if self.oracle.len() < 200 {
+        // cap per class, so that known findings can never crowd out an unlisted failure
+        let n = self.oracle.iter().filter(|(c, _, _)| c == class).count();
+        let cap = if class.is_empty() { 300 } else { 40 };
+        *self.dist.entry(format!("oracle_fail.{}", if class.is_empty() { "unlisted" } else { class })).or_insert(0) += 1;
+        if n < cap {
             self.oracle.push((class.to_string(), input.replace('\n', "\\n"), detail.replace('\n', "\\n")));
         }
     }
